@@ -51,8 +51,7 @@ def interleavings(n1, n2):
 
 def shards(tier):
     # the 10x10 contranominal scale: concepts with 9 neighbours met in mid-traversal
-    return e1.std_shards(tier, with_p=True, with_big=True) + \
-        ([('W', 'contranominal', 10)] if tier == 'quick' else [])
+    return e1.std_shards(tier, with_p=True, with_big=True)
 
 
 def check_case(case, ctr):
@@ -113,7 +112,7 @@ def check_case(case, ctr):
     if any(len(ref.upper_covers(i)) > 1 for i in range(k)) and k > 3:
         ctr['hit_diamond'] += 1
 
-    if k <= 40:
+    if k <= 20:
         colls = [()] + [(i,) for i in range(k)] + list(itertools.product(range(k), repeat=2))
     else:
         colls = [()] + [(i,) for i in range(k)]
